@@ -66,6 +66,15 @@ function spaces(tier) {
       }
     },
   });
+  // a configured vnode factory changes who creates the vnode, not its type and props (and what has to be imported for them)
+  sp.push({
+    name: 'G:configured-pragma',
+    bounds: { pragma: 'hh', hosts: ['div', 'Comp', 'Unbound', 'member'], attrs: thorough ? 'core, ≤2' : 'all ≤1, core pairs on div', options: '8 vectors' },
+    *gen() {
+      for (const host of ['div', 'Comp', 'Unbound', 'member']) for (const seq of sequences(E.ALL_ATTRS.length, 1, { distinct: true })) for (const o of OPT_VECTORS) yield { sp: 'A', host, attrs: seq.map((i) => E.ALL_ATTRS[i]), o: Object.assign({ pragma: 'hh' }, o) };
+      for (const host of (thorough ? ['div', 'Comp'] : ['div'])) for (const seq of sequences(E.CORE_ATTRS.length, 2, { distinct: true, minLen: 2 })) for (const o of OPT_VECTORS) yield { sp: 'A', host, attrs: seq.map((i) => E.CORE_ATTRS[i]), o: Object.assign({ pragma: 'hh' }, o) };
+    },
+  });
   // comments that look like annotations of other tool chains must leave elements alone
   sp.push({
     name: 'C:leading-comments',
@@ -176,12 +185,13 @@ function* shrink(c) {
   if (!c.o.mergeProps) yield Object.assign({}, c, { o: Object.assign({}, c.o, { mergeProps: true }) });
   if (c.o.transformOn) yield Object.assign({}, c, { o: Object.assign({}, c.o, { transformOn: false }) });
   if (c.o.optimize) yield Object.assign({}, c, { o: Object.assign({}, c.o, { optimize: false }) });
+  if (c.o.pragma) { const o = Object.assign({}, c.o); delete o.pragma; yield Object.assign({}, c, { o }); }
 }
 
 function caseKey(c) {
   if (c.sp === 'P') return 'P:' + c.uses.join(',');
   if (c.sp === 'S') return 'S:' + c.s.map((i) => SYM[i][0]).join('.');
-  const o = Object.keys(c.o).filter((k) => c.o[k]).join('+') || '-';
+  const o = Object.keys(c.o).filter((k) => c.o[k]).map((k) => (k === 'pragma' ? 'pragma=' + c.o[k] : k)).join('+') || '-';
   return `A:${c.host}[${c.attrs.map((k, i) => (c.w && c.w[0] === i ? c.w[1] + '(' + k + ')' : k)).join(',')}]{${o}}${c.cm !== undefined ? ' after ' + JSON.stringify(COMMENTS[c.cm]) : ''}`;
 }
 
